@@ -97,3 +97,44 @@ func VerifC06_KeysAreCopied() {
 //
 //verif:reach checked
 func VerifC12_KeysOutliveTheRecord() { VerifC06_KeysAreCopied() }
+
+// VerifC06_LookupKeyInjectiveLongValues: the same injectivity question with
+// value lengths on both sides of the places where the decimal length prefix
+// changes its width (9/10/11 bytes; thorough: also 99/100/101), every byte of
+// every value symbolic: tuples such as ('0','aaaaaaaa1b') and ('10aaaaaaaa','b')
+// must not share an object. Lengths are case-split, contents are decided by the solver.
+//
+//verif:reach same different
+//verif:paths 200000
+func VerifC06_LookupKeyInjectiveLongValues() {
+	lens := []int{0, 1, 9, 10, 11}
+	if sym.Tier() > 0 {
+		lens = []int{0, 1, 2, 9, 10, 11, 12, 99, 100, 101}
+	}
+	tuple := func(prefix string) []string {
+		vals := make([]string, 2)
+		for i := range vals {
+			n := lens[sym.Choice(prefix+"Len", len(lens))]
+			vals[i] = sym.String(prefix, n, n)
+		}
+		return vals
+	}
+	a := tuple("a")
+	b := tuple("b")
+	created := 0
+	gm := NewGlobalMap[int, int](
+		func(keys []string, onStopped func()) int { created++; return created },
+		func(int) {},
+		func(g int) int { return g },
+	)
+	lm := gm.MakeLocalMap()
+	ia := lm.GetOrCreate(a, func([]string) {})
+	ib := lm.GetOrCreate(b, func([]string) {})
+	same := verifSameTuple(a, b)
+	sym.Assert((ia == ib) == same, "two tuples of longer values share an object iff they are equal field by field")
+	if same {
+		sym.Reach("same")
+	} else {
+		sym.Reach("different")
+	}
+}
